@@ -146,7 +146,11 @@ Fixpoint run_steps_p (pd : pending) (h : handler) (now : N) (mode : N) (after_sl
              how long the naps really took) *)
           (if existsb (fun s => match s with Exchange _ _ _ _ => true | _ => false end) r then []
            else let o' := removelast o ++ [0] in len o' :: o')
-     else if (mode =? 0) || (mode =? 3) || (mode =? 4) || after_sleep then len o :: o else []) ++ run_steps_p pd h' now mode false r
+     else if mode =? 4
+     then (* mode 4: every exchange is observed, without the number of physical entries (which depends on how long the naps
+             really took: an entry of another key may be purged one access earlier or later) *)
+          (let o' := removelast o ++ [0] in len o' :: o')
+     else if (mode =? 0) || (mode =? 3) || after_sleep then len o :: o else []) ++ run_steps_p pd h' now mode false r
   end.
 Definition run_steps := run_steps_p [].
 
